@@ -521,7 +521,7 @@ _COMPOUND_EXTRA = {
 }
 
 
-MATCHED_CHECKS = (110, 114, 136, 171)
+MATCHED_CHECKS = (110, 114, 136, 171, 149)
 COMPOUND_INFO: dict[int, tuple] = {}
 
 
@@ -871,20 +871,22 @@ def matcher_tie(ctx: Ctx, matched: dict, all_rules: list, built: bool) -> None:
             # the shapes these checks look for, built from random operands
             a0, b0 = s0, G.unparse(gen_.expr(1)) or "a"
             for shape in (f"({a0}) if ({a0}) else ({b0})", f"not not ({a0})", f"({a0}) if ({a0}) < ({b0}) else ({b0})", f"({b0}) if ({a0}) >= ({b0}) else ({a0})",
-                          f"({a0}) in [({b0})]", f"({a0}) not in (({b0}),)", f"({a0}) in {{({b0})}}", f"({a0}) if ({b0}) > ({a0}) else ({b0})"):
+                          f"({a0}) in [({b0})]", f"({a0}) not in (({b0}),)", f"({a0}) in {{({b0})}}", f"({a0}) if ({b0}) > ({a0}) else ({b0})",
+                          f"({a0}) is True", f"False != ({a0})", "flag == False", "True is not flag", f"flag is ({a0})", "flag != True"):
                 if rng.random() < 0.25 and shape not in seen:
                     seen.add(shape)
                     srcs.append(shape)
     files, per = {}, 400
     for fi in range(0, len(srcs), per):
-        lines = [G.PRELUDE, "w = 0", "async def _w() -> None:"]
+        lines = [G.PRELUDE, "w = 0", "flag: bool = True", "async def _w() -> None:"]
         for j, s0 in enumerate(srcs[fi:fi + per]):
             lines.append(f"    P_{fi + j} = {s0}")
         files[f"m{fi // per}.py"] = "\n".join(lines) + "\n"
     found, errs, td = TC.harvest(files)
     try:
         loose = (N.ConditionalExpr, N.LambdaExpr, N.AwaitExpr, N.AssignmentExpr)
-        kinds = {110: N.ConditionalExpr, 136: N.ConditionalExpr, 114: N.UnaryExpr, 171: N.ComparisonExpr}
+        kinds = {110: N.ConditionalExpr, 136: N.ConditionalExpr, 114: N.UnaryExpr, 171: N.ComparisonExpr, 149: N.ComparisonExpr}
+        from refurb.checks.common import get_mypy_type, is_same_type, stringify
         mods = {code: importlib.import_module(info["module"]) for code, info in matched.items()}
         rows = []
 
@@ -909,18 +911,27 @@ def matcher_tie(ctx: Ctx, matched: dict, all_rules: list, built: bool) -> None:
                         real = [e.msg for e in errors]
                     except Exception as ex:  # noqa: BLE001
                         real = [f"<{type(ex).__name__}>"]
-                    rows.append((code, node, real))
+                    oracle = []
+                    if code == 149:          # what the type guard answers for the operands, keyed by their text
+                        for op_ in getattr(node, "operands", []):
+                            try:
+                                if is_same_type(get_mypy_type(op_), bool):
+                                    oracle.append(stringify(op_))
+                            except Exception:  # noqa: BLE001
+                                pass
+                    rows.append((code, node, real, oracle))
                     ctx.case(("matcher", code, srcs[int(pname[2:])][:80], node.line, node.column), nontrivial=bool(real),
                              sample={"check": f"FURB{code}", "messages": real} if real and rng.random() < 0.02 else None)
                     ctx.count(f"matcher:FURB{code}:{'reports' if real else 'silent'}")
         if built and rows:
             hdr = ("From Lib Require Import Base PyAst Equiv Stringify PyMatch.\nFrom P Require Import GenEquiv GenMatch.\nOpen Scope list_scope.\nSet Printing Width 100000.\n"
-                   "Definition same (a b : list string) := list_eqb String.eqb a b.\n")
+                   "Definition same (a b : list string) := list_eqb String.eqb a b.\n"
+                   "Definition ty (bools : list string) (e : expr) (t : string) : bool := String.eqb t \"bool\" && existsb (String.eqb (stringify e)) bools.\n")
             shards, metas = [], []
             for i in range(0, len(rows), 300):
                 chunk = rows[i:i + 300]
                 body = "Definition cs : list (list string * list string) := [\n" + ";\n".join(
-                    f"(map render (check_{code} {TC.expr(node)}), {coq.coq_list([coq.coq_str(m) for m in real])})" for code, node, real in chunk) + "].\n" \
+                    f"(map render (check_{code} {'(ty ' + coq.coq_list([coq.coq_str(x) for x in oracle]) + ') ' if code == 149 else ''}{TC.expr(node)}), {coq.coq_list([coq.coq_str(m) for m in real])})" for code, node, real, oracle in chunk) + "].\n" \
                     "Eval vm_compute in (fix go i l := match l with [] => [] | (m, r) :: t => if same m r then go (S i) t else i :: go (S i) t end) 0 cs.\n"
                 shards.append(body)
                 metas.append(chunk)
@@ -932,9 +943,9 @@ def matcher_tie(ctx: Ctx, matched: dict, all_rules: list, built: bool) -> None:
                     mism.append("coqc failed: " + err[-300:])
                     continue
                 for i in [int(x) for x in vals[0].strip("[]").split(";") if x.strip()][:4]:
-                    code, node, real = chunk[i]
+                    code, node, real, _ = chunk[i]
                     mism.append(f"FURB{code} on `{str(node)[:60]}` line {node.line}: real {real}")
-            ctx.obligation("correspondence: translated check() of FURB110/114/136/171 (GenMatch.v, rendered with Lib/Stringify.v) = the real check functions on every harvested node",
+            ctx.obligation("correspondence: translated check() of FURB110/114/136/149/171 (GenMatch.v, rendered with Lib/Stringify.v) = the real check functions on every harvested node",
                            not mism, "; ".join(mism[:5]))
             ctx.extra["matcher_tie_nodes"] = len(rows)
     finally:
@@ -971,12 +982,15 @@ def run(ctx: Ctx) -> None:
         from ..translate.equiv import translate as translate_equiv
         from ..translate.matchers import translate_check
         cat = {c["code"]: c for c in catalogue(REPO) if c["prefix"] == "FURB"}
-        parts = ["(* generated from refurb/checks: check() of FURB110, 114, 136, 171 as matchers over PyAst with message templates *)",
-                 "From Lib Require Import Base PyAst Equiv Stringify PyMatch.", "From P Require Import GenEquiv.", "Open Scope list_scope.", ""]
+        parts = ["(* generated from refurb/checks: check() of FURB110, 114, 136, 149, 171 as matchers over PyAst with message templates *)",
+                 "From Lib Require Import Base PyAst Equiv Stringify PyMatch.", "From P Require Import GenEquiv.", "Open Scope list_scope.", "",
+                 "Section Checks.", "  (* what refurb's type resolution answers for an operand: is_same_type(get_mypy_type(e), T) *)",
+                 "  Variable type_is : expr -> string -> bool.", ""]
         for code in MATCHED_CHECKS:
             info = cat[code]
             parts.append(translate_check(Path(info["path"]), code, info["msg"]))
             matched[code] = info
+        parts.append("End Checks.")
         gen["GenEquiv"] = translate_equiv(REPO)
         gen["C06Proofs"] = (coq.PROPS / "C06" / "C06Proofs.v").read_text()
         gen["GenMatch"] = "\n".join(parts)
@@ -985,7 +999,7 @@ def run(ctx: Ctx) -> None:
         matched = {}
         for k in ("GenEquiv", "C06Proofs", "GenMatch"):
             gen.pop(k, None)
-        ctx.obligation("translate check() of FURB110/114/136/171 (matchers with message templates)", False, f"{type(e).__name__}: {e}")
+        ctx.obligation("translate check() of FURB110/114/136/149/171 (matchers with message templates)", False, f"{type(e).__name__}: {e}")
     b = coq.compile_props(ctx, gen, order)
     coq.record_build(ctx, b)
     from refurb.main import run_refurb
